@@ -247,6 +247,7 @@ type Event struct {
 	Raw        string
 	Ob         *Obligation
 	Structural bool // typing / allocation / axiom-instance fact: kept in modular contexts
+	Scope      *Obligation // non-nil: a fact produced while evaluating a "check at" clause, used for that obligation only
 }
 
 type Obligation struct {
